@@ -101,6 +101,35 @@ def replay_group(run, cache, key, tvs):
                                   "converted again does not keep its rotation in every conversion", {"tv": tv, "param_in": A[:, k].tolist(), "err": float(dj[k])})
 
 
+def near_level_sweep(run, cache):
+    """headings beyond 120 deg with tilts of 0, 1e-7 .. 1e-4 rad: the attitudes a vehicle hovering with its nose away
+    from north has all the time.  trace(R) <= 0 and two diagonal entries agree to rounding, so the matrix -> quaternion
+    extraction chooses between nearly degenerate pivots.  Their integers do not fit TLC's 32 bits; the expectation is
+    the matrix itself (numpy Rz Ry Rx): every from-matrix conversion must reproduce it and return a valid element."""
+    def rx(a): c, s_ = math.cos(a), math.sin(a); return np.array([[1, 0, 0], [0, c, -s_], [0, s_, c]])
+    def ry(a): c, s_ = math.cos(a), math.sin(a); return np.array([[c, 0, s_], [0, 1, 0], [-s_, 0, c]])
+    def rz(a): c, s_ = math.cos(a), math.sin(a); return np.array([[c, -s_, 0], [s_, c, 0], [0, 0, 1]])
+    yaws = [2.2, 2.6, 3.0, -2.4, -2.9, math.pi, 2.0944, -2.0945, 1.0]
+    tilts = [0.0, 1e-7, -1e-6, 1e-5, -1e-4, 3e-6]
+    Rs = [rz(y) @ ry(a) @ rx(b) for y in yaws for a in tilts for b in tilts]
+    A = np.array([R.flatten(order="F") for R in Rs]).T
+    for to in ("quat", "mrp", "dcm", "euler"):
+        built = cache.get(("frommat", "matrix", to), builder("frommat", "matrix", to))
+        if isinstance(built, tuple):
+            continue
+        M, P = batch_call(built, [A])[:2]
+        run.count("evaluations", A.shape[1]); run.count("near_level_sweep", A.shape[1])
+        with np.errstate(invalid="ignore"):
+            d = np.max(np.abs(M - A), axis=0)
+            v = valid_param(to, P)
+        for k in range(A.shape[1]):
+            if not (d[k] <= TOL):
+                run.violation(f"matrix->{to}/frommat/rotation/near_level", "converted element has a different rotation matrix",
+                              {"matrix": Rs[k].tolist(), "param_out": P[:, k].tolist(), "err": float(d[k])})
+            elif not (v[k] <= 1e-9):
+                run.violation(f"matrix->{to}/frommat/valid/near_level", "result is not a valid representative", {"matrix": Rs[k].tolist(), "param_out": P[:, k].tolist()})
+
+
 def main():
     tier = sys.argv[1] if len(sys.argv) > 1 else "quick"
     run = Run(PID, tier)
@@ -138,6 +167,7 @@ def main():
     for key, tvs in sorted(grp.items()):
         run.sample({"op": key[0], "from": key[1], "to": key[2], "q": tvs[len(tvs) // 3]["q"]}, limit=6)
         replay_group(run, cache, key, tvs)
+    near_level_sweep(run, cache)
     pairs = {(f, t) for (op, f, t) in grp if op == "conv"}
     if len(pairs) != 12 or shep != {1, 2, 3, 4} or not {"pole", "band", "nearband", "pi", "wneg", "nearid", "nearpi"} <= set(cells):
         raise MachineryError(f"vacuous coverage: pairs={len(pairs)} shepperd={shep} cells={sorted(cells)}")
